@@ -2390,6 +2390,7 @@ DLLIMPORT int cfg_setlist(cfg_t *cfg, const char *name, unsigned int nvalues, ..
 	}
 
 	cfg_free_value(opt);
+	opt->flags |= CFGF_MODIFIED; /* also when the new list is empty */
 	va_start(ap, nvalues);
 	cfg_addlist_internal(opt, nvalues, ap);
 	va_end(ap);
